@@ -22,7 +22,8 @@ let step_of (st : string) : step =
   | ["D"; k] -> SDel (hb k)
   | ["R"; a; b] -> SDelRange (hb a, hb b)
   | ["M"; k; v] -> SMerge (hb k, hb v)
-  | ["C"] | ["c"] -> SCommit
+  | ["C"] | ["c"] | ["Q"] -> SCommit
+  | ["B"; _] | ["Y"; _] | ["Z"; _] -> SOtherBatch
   | ["X"] -> SClear
   | ["N"] | ["W"] -> SNewBatch
   | ["F"] -> SFlush
